@@ -46,6 +46,9 @@ def profile(h=0):
                   "m*", "m?", "m[01]", "rate[5m]", "rate5", ".*", "m.", "%", "m\\d"]  # names that are patterns in some syntax
         p.extra_tag_keys = [f"key{i}" for i in range(14)]
         p.extra_tag_vals = [f"v{i}" for i in range(25)] + ["12", "1.5", "x" * 300]
+    if h % 10 == 8:  # strings that are different but equal under some unicode normalisation / folding (NFC, NFKC, casefold)
+        p.meas = ["m0", "caf\u00e9", "cafe\u0301", "m2", "m\u00b2", "cpu", "\uff43\uff50\uff55", "stra\u00dfe", "strasse"]
+        p.extra_tag_vals = ["m0", "caf\u00e9", "cafe\u0301", "m2", "m\u00b2", "cpu", "\uff43\uff50\uff55", "stra\u00dfe", "strasse"][1:]
     if h % 10 == 6:  # a few measurement names that are patterns in some syntax, next to names they would match
         p.meas = ["m0", "m1", "m*", "m?", "m[01]", "rate[5m]", "rate5", "m."]
     if h % 20 == 17:  # instants at and around the epoch (timestamp 0.0, negative timestamps) and year 1900
